@@ -237,7 +237,7 @@ func (dc *DocumentChunker) createHeadingChunk(text string, docTitle string, sect
 		Text: text,
 		Metadata: ChunkMetadata{
 			DocumentTitle: docTitle,
-			SectionPath:   sectionPath,
+			SectionPath:   append([]string(nil), sectionPath...), // own copy: the caller keeps mutating its section stack
 			SectionTitle:  sectionTitle,
 			HeadingLevel:  level,
 			PageStart:     pageNum,
@@ -267,7 +267,7 @@ func (dc *DocumentChunker) createChunkFromHeading(h *model.Heading, docTitle str
 		Text: text,
 		Metadata: ChunkMetadata{
 			DocumentTitle: docTitle,
-			SectionPath:   sectionPath,
+			SectionPath:   append([]string(nil), sectionPath...), // own copy: the caller keeps mutating its section stack
 			SectionTitle:  sectionTitle,
 			HeadingLevel:  h.Level,
 			PageStart:     pageNum,
@@ -326,7 +326,7 @@ func (dc *DocumentChunker) createListChunk(list *model.List, docTitle string, se
 		Text: text,
 		Metadata: ChunkMetadata{
 			DocumentTitle: docTitle,
-			SectionPath:   sectionPath,
+			SectionPath:   append([]string(nil), sectionPath...), // own copy: the caller keeps mutating its section stack
 			SectionTitle:  sectionTitle,
 			PageStart:     pageNum,
 			PageEnd:       pageNum,
@@ -358,7 +358,7 @@ func (dc *DocumentChunker) createTableChunk(table *model.Table, docTitle string,
 		Text: text,
 		Metadata: ChunkMetadata{
 			DocumentTitle: docTitle,
-			SectionPath:   sectionPath,
+			SectionPath:   append([]string(nil), sectionPath...), // own copy: the caller keeps mutating its section stack
 			SectionTitle:  sectionTitle,
 			PageStart:     pageNum,
 			PageEnd:       pageNum,
@@ -390,7 +390,7 @@ func (dc *DocumentChunker) createImageChunk(img *model.Image, docTitle string, s
 		Text: text,
 		Metadata: ChunkMetadata{
 			DocumentTitle: docTitle,
-			SectionPath:   sectionPath,
+			SectionPath:   append([]string(nil), sectionPath...), // own copy: the caller keeps mutating its section stack
 			SectionTitle:  sectionTitle,
 			PageStart:     pageNum,
 			PageEnd:       pageNum,
